@@ -12,7 +12,7 @@ pub struct World {
     pub vsel: u64,
 }
 
-pub const AUTO_VERBOSITY_NOTE: &str = "runs whose case does not fix a verbosity use 0 / -v / -vv / -vvv for 70 / 10 / 10 / 10 % of the chains (chosen by a hash of the indexed block hashes, so that partner runs of one case share it)";
+pub const AUTO_VERBOSITY_NOTE: &str = "runs whose case does not fix a verbosity use 0 / -v / -vv / -vvv for 70 / 10 / 10 / 10 % of the chains (chosen by a hash of the indexed block hashes, so that partner runs of one case share it); likewise 40 % of the chains are run with the blockchain directory and the dump folder spelled differently on the command line (relative to the working directory, with trailing slashes, with ./ and /../ detours) and TZ set to a far-off zone";
 
 impl World {
     /// writes the plan into <scratch>/data
@@ -41,6 +41,15 @@ impl World {
                 0 => 1,
                 1 => 2,
                 2 => 3,
+                _ => 0,
+            };
+        }
+        if o.path_style == 0 {
+            o.path_style = match (self.vsel >> 17) % 10 {
+                0 => 1,
+                1 => 2,
+                2 => 3,
+                3 => 4,
                 _ => 0,
             };
         }
